@@ -130,9 +130,20 @@ func lex(src string) ([]token, *Error) {
 				i++
 			}
 			raw := src[start:i]
-			// E'...' escape strings and similar prefixes are not supported
-			if i < n && src[i] == '\'' && len(raw) == 1 && strings.ContainsAny(raw, "eEbBxXnN") {
-				return nil, errf("unsupported", "string literal with prefix %q at offset %d", raw, start)
+			if i < n && src[i] == '\'' && len(raw) == 1 {
+				if raw == "e" || raw == "E" {
+					text, end, err := lexEscapeString(src, i)
+					if err != nil {
+						return nil, err
+					}
+					out = append(out, token{kind: tString, text: text, raw: src[start:end], pos: start})
+					i = end
+					continue
+				}
+				// bit strings and national character strings are not supported
+				if strings.ContainsAny(raw, "bBxXnN") {
+					return nil, errf("unsupported", "string literal with prefix %q at offset %d", raw, start)
+				}
 			}
 			out = append(out, token{kind: tIdent, text: foldIdent(raw), raw: raw, pos: start})
 		case c == '"':
@@ -269,6 +280,104 @@ func lex(src string) ([]token, *Error) {
 	}
 	out = append(out, token{kind: tEOF, pos: n})
 	return out, nil
+}
+
+// lexEscapeString reads an E'...' string whose opening quote is at src[i]; it
+// returns the unescaped text and the offset after the closing quote.
+func lexEscapeString(src string, i int) (string, int, *Error) {
+	start := i
+	i++
+	var sb strings.Builder
+	n := len(src)
+	for i < n {
+		c := src[i]
+		switch {
+		case c == '\'':
+			if i+1 < n && src[i+1] == '\'' {
+				sb.WriteByte('\'')
+				i += 2
+				continue
+			}
+			return sb.String(), i + 1, nil
+		case c == '\\':
+			if i+1 >= n {
+				return "", 0, errf("syntax", "unterminated quoted string at offset %d", start)
+			}
+			e := src[i+1]
+			i += 2
+			switch {
+			case e == 'b':
+				sb.WriteByte('\b')
+			case e == 'f':
+				sb.WriteByte('\f')
+			case e == 'n':
+				sb.WriteByte('\n')
+			case e == 'r':
+				sb.WriteByte('\r')
+			case e == 't':
+				sb.WriteByte('\t')
+			case e >= '0' && e <= '7':
+				v := int(e - '0')
+				for k := 0; k < 2 && i < n && src[i] >= '0' && src[i] <= '7'; k++ {
+					v = v*8 + int(src[i]-'0')
+					i++
+				}
+				sb.WriteByte(byte(v))
+			case e == 'x':
+				v, digits := 0, 0
+				for digits < 2 && i < n && isHexDigit(src[i]) {
+					v = v*16 + hexVal(src[i])
+					i++
+					digits++
+				}
+				if digits == 0 {
+					sb.WriteByte('x')
+				} else {
+					sb.WriteByte(byte(v))
+				}
+			case e == 'u' || e == 'U':
+				want := 4
+				if e == 'U' {
+					want = 8
+				}
+				if i+want > n {
+					return "", 0, errf("syntax", "invalid Unicode escape at offset %d", i-2)
+				}
+				v := 0
+				for k := 0; k < want; k++ {
+					if !isHexDigit(src[i+k]) {
+						return "", 0, errf("syntax", "invalid Unicode escape at offset %d", i-2)
+					}
+					v = v*16 + hexVal(src[i+k])
+				}
+				if v > 0x10FFFF || (v >= 0xD800 && v <= 0xDFFF) {
+					return "", 0, errf("unsupported", "Unicode escape out of range or surrogate at offset %d", i-2)
+				}
+				i += want
+				sb.WriteRune(rune(v))
+			default:
+				sb.WriteByte(e)
+			}
+		default:
+			sb.WriteByte(c)
+			i++
+		}
+	}
+	return "", 0, errf("syntax", "unterminated quoted string at offset %d", start)
+}
+
+func isHexDigit(c byte) bool {
+	return isDigit(c) || (c >= 'a' && c <= 'f') || (c >= 'A' && c <= 'F')
+}
+
+func hexVal(c byte) int {
+	switch {
+	case isDigit(c):
+		return int(c - '0')
+	case c >= 'a':
+		return int(c-'a') + 10
+	}
+	return int(c-'A') + 10
 }
 
 // splitStatements cuts a token stream (as produced by lex) into statements at
